@@ -26,7 +26,7 @@ import z3
 
 from pyvc import vals as V
 from pyvc import lib
-from pyvc.contract import Pack, T, OBJ, ANY, INT
+from pyvc.contract import Pack, T, OBJ, ANY, INT, STR
 from pyvc.engine import SV, Model, Raise, Exc, Unsupported
 
 CH = z3.Function("CH", z3.IntSort(), V.Val)        # what the k-th stream.read(1) returns
@@ -764,6 +764,152 @@ def add_prefix_readers(pack):
     c.ensures("the comment ends right after the first LF or CR following it (either one: a lone CR ends the line too), or at the end of the text; nothing after that is consumed", comment_post)
     c.replay(lambda m, ctx, ob: COMMENT_REPLAY)
     c.replay_without_model = True
+
+
+    # ---- collections: read elements up to the closing delimiter; the text ending first is an *incomplete* form
+    class CollFn:
+        """stand-in for the constructor handed to _read_coll (list / vector / the duplicate-checking set constructor)"""
+
+    def coll_setup(eng, st):
+        psetup(eng, st)
+        eng.class_id(CollFn)
+        eng.opaque_havoc = "none"
+
+        def read_next(e, s, args, k):
+            # by contract (induction over nesting): reads one form starting at the cursor - at least one character -
+            # keeps the reader well-formed, returns a form / comment marker, or raises: UnexpectedEOFError when the text
+            # ended inside that form, another SyntaxError when it is malformed
+            ctx = e.lift(args[0], s)
+            r = fld(s, ctx, "_reader")
+            p = pos(s, r)
+            s.ghost["n_read"] = z3.Int(V.fresh_name("n_read"))
+            e.havoc_heap(s, ["_idx"])
+            for nm in ("dqv", "dqn"):
+                if nm in s.aux:
+                    s.aux[nm] = z3.Const(V.fresh_name(nm), s.aux[nm].sort())
+            s.assume(WF(e, s, r), pos(s, r) > p)
+            s2, s3 = s.copy(), s.copy()
+            res = V.fresh_val("element")
+            s.assume(e.external_ref_fact(s, res))
+            s.ghost["elements"] = list(s.ghost.get("elements", [])) + [res]
+            yield s, SV(res)
+            s2.ghost["inner_exc"] = "eof"
+            yield s2, Raise(Exc(rd.UnexpectedEOFError, ("Unexpected EOF in a nested form",), note="the text ended inside an element"))
+            s3.ghost["inner_exc"] = "syntax"
+            yield s3, Raise(Exc(rd.SyntaxError, ("malformed element",), note="malformed element"))
+
+        eng.models[id(rd._read_next)] = Model("_read_next (by contract, induction over nesting)", read_next)
+        eng.models[id(rd._should_splice_reader_conditional)] = Model(
+            "_should_splice_reader_conditional (either answer)", lambda e, s, a, k: iter([(s, SV(V.mk_bool(z3.Const(V.fresh_name("splice"), z3.BoolSort()))))]))
+
+        def select_branch(e, s, a, k):
+            s2 = s.copy()
+            r = V.fresh_val("selected")
+            s.assume(e.external_ref_fact(s, r))
+            yield s, SV(r)
+            s2.ghost["inner_exc"] = "syntax"
+            yield s2, Raise(Exc(rd.SyntaxError, ("unresolvable tagged literal",), note="raised while selecting the branch"))
+
+        eng.models[id(rd._select_reader_conditional_branch)] = Model("_select_reader_conditional_branch (some form, or a syntax error)", select_branch)
+
+        def f_hook(e, s, f, args, kwargs, line):
+            if not (isinstance(f, SV) and f.hint is CollFn):
+                return None
+
+            def gen():
+                s2 = s.copy()
+                res = V.fresh_val("collection")
+                s.assume(e.external_ref_fact(s, res))
+                s.ghost["built"] = list(s.ghost.get("built", [])) + [(e.lift(args[0], s), res)]
+                yield s, SV(res)
+                s2.ghost["inner_exc"] = "syntax"
+                yield s2, Raise(Exc(rd.SyntaxError, ("duplicated values",), note="raised by the collection constructor"))
+
+            return gen()
+
+        eng.opaque_hook = f_hook
+
+    c = pack.contract("basilisp.lang.reader:_read_coll")
+    c.param("ctx", OBJ(RC)).param("f", OBJ(CollFn)).param("end_char", STR).param("coll_name", STR)
+    c.setup(coll_setup)
+    c.requires("the stream reader is well-formed; the closing delimiter is one character, not whitespace",
+               lambda a: z3.And(WF(a.eng, a.pre.st, reader_of(a)), ONECHAR(a.end_char), a.end_char != V.mk_str(""), z3.Not(is_ws(a.end_char))))
+    c.raises(rd.SyntaxError)
+
+    def coll_inv(ctx):
+        st, pre = ctx.st, ctx.entry.st
+        r = fld(pre, ctx["ctx"], "_reader")
+        return [
+            ("the stream reader stays well-formed and is still the context's reader", z3.And(WF(ctx.eng, st, r), fld(st, ctx["ctx"], "_reader") == r, ctx["reader"] == r)),
+            ("the cursor has not moved back", pos(st, r) >= pos(pre, r)),
+            ("the eof value is untouched", fld(st, ctx["ctx"], "_eof") == fld(pre, ctx["ctx"], "_eof")),
+        ]
+
+    c.loop(0, invariant=coll_inv, frame=["_idx"], lists=True, ghost=("n_read",), aux=("dqv", "dqn"))
+
+    def coll_post(a):
+        pre, post = a.pre.st, a.post.st
+        r = reader_of(a)
+        built = post.ghost.get("built", [])
+        if len(built) != 1:
+            return z3.BoolVal(False)
+        lst, res = built[0]
+        p = pos(post, r)
+        return z3.And(WF(a.eng, post, r), a.result == res, p > pos(pre, r), CH(p - 1) == a.end_char, V.is_ref(lst), V.Val.a(lst) > 0)
+
+    c.ensures("a collection is returned only once its closing delimiter has been read (the cursor stands right after it): it is what the constructor makes of the "
+              "list of elements collected by this call, the reader stays well-formed", coll_post)
+
+    def coll_raise(a):
+        post = a.post.st
+        r = reader_of(a)
+        own = post.ghost.get("inner_exc") is None
+        is_eof = a.exc.pycls is not None and issubclass(a.exc.pycls, rd.UnexpectedEOFError)
+        if post.ghost.get("inner_exc") == "eof":
+            return z3.BoolVal(is_eof)
+        if not own:
+            return z3.BoolVal(True)
+        # the reader's own error: the text ended before the closing delimiter
+        return z3.And(CH(pos(post, r)) == V.mk_str(""), z3.BoolVal(is_eof)) if is_eof else z3.BoolVal(post.ghost.get("own_syntax_ok", False) or _is_splice_error(a))
+
+    def _is_splice_error(a):
+        msg = a.exc.args[0] if getattr(a.exc, "args", None) else None
+        return isinstance(msg, str) and msg.startswith("Expecting Vector for splicing") or (not isinstance(msg, str) and msg is not None and "splicing" in str(msg))
+
+    c.ensures_on_raise("when the text ends before the closing delimiter - here or inside an element - the error is UnexpectedEOFError (incomplete, the REPL's cue), "
+                       "never a plain syntax error; the only plain syntax error of its own is the splicing check", coll_raise)
+    c.replay(lambda m, ctx, ob: COLL_REPLAY)
+    c.replay_without_model = True
+
+
+COLL_REPLAY = r'''
+from basilisp.lang import reader
+bad = []
+def outcome(text):
+    try:
+        return [f.lrepr() if hasattr(f, "lrepr") else repr(f) for f in reader.read_str(text)]
+    except reader.UnexpectedEOFError:
+        return "incomplete"
+    except reader.SyntaxError as e:
+        return "malformed"
+    except Exception as e:
+        return type(e).__name__
+for op, cl in (("(", ")"), ("[", "]"), ("#{", "}"), ("{", "}")):
+    for body in ("", "1", "1 2", "1 ;c\n", "1 (2", "1 [2 #{3", " , "):
+        got = outcome(op + body)
+        if got != "incomplete":
+            bad.append("%r: %s, expected incomplete" % (op + body, got))
+    if op != "{":
+        got = outcome(op + "1 2" + cl + " x")
+        if not (isinstance(got, list) and len(got) == 2 and got[1] == "x"):
+            bad.append("%r: %s, expected the collection and then x" % (op + "1 2" + cl + " x", got))
+got = outcome("(1 ] 2)")
+if got != "malformed":
+    bad.append("'(1 ] 2)': %s, expected malformed" % (got,))
+for line in bad[:10]:
+    print(line)
+print("REPRODUCED" if bad else "not reproduced")
+'''
 
 
 COMMENT_REPLAY = r'''
